@@ -176,13 +176,18 @@ class TransformedTargetForecaster(
         self.check_is_fitted()
         self._update_y_X(y, X)
 
-        for step_idx, name, transformer in self._iter_transformers():
-            if hasattr(transformer, "update"):
-                transformer.update(y, update_params=update_params)
-                self.steps_[step_idx] = (name, transformer)
+        # each step is updated with the series in the representation it was
+        # fitted in, i.e. transformed by all previous steps
+        yt = y
+        if len(yt) > 0:  # as in `_update_y_X`, only non-empty data is passed on
+            for step_idx, name, transformer in self._iter_transformers():
+                if hasattr(transformer, "update"):
+                    transformer.update(yt, update_params=update_params)
+                    self.steps_[step_idx] = (name, transformer)
+                yt = transformer.transform(yt)
 
         name, forecaster = self.steps_[-1]
-        forecaster.update(y, update_params=update_params)
+        forecaster.update(yt, update_params=update_params)
         self.steps_[-1] = (name, forecaster)
         return self
 
